@@ -73,6 +73,10 @@ def dumps(obj, style='compact'):
         return json.dumps(obj, separators=(',', ':'), default=default).encode('ascii')
     if style == 'spaced':
         return json.dumps(obj, default=default).encode('ascii')
+    if style == 'utf8':
+        # ordinary RFC 8259 interchange form: UTF-8, characters outside ASCII not escaped (the default of
+        # most JSON libraries).  README silent on the text encoding of stored JSON: RFC 8259 UTF-8 assumed.
+        return json.dumps(obj, ensure_ascii=False, separators=(',', ':'), default=default).encode('utf-8')
     return json.dumps(obj, indent=1, sort_keys=True, default=default).encode('ascii')
 
 
